@@ -16,6 +16,7 @@ type Clause struct {
 	Src   string   // source text after sugar expansion
 	Expr  ast.Expr // parsed (positions meaningless)
 	Line  string   // file:line of the contract text
+	orig  ast.Expr // the expression as parsed, before CheckClause's substitutions (re-checks start from it)
 }
 
 type LoopSpec struct {
@@ -66,6 +67,9 @@ type Contract struct {
 	// Registers: "Type.field" — this function is what the program installs in that function-typed field (a callback
 	// with a `callback` clause): whoever may invoke the field also writes what this function writes.
 	Registers []string
+	// LocalRen: repairs of proof hints whose text names a local variable that no longer exists (old name -> a local of
+	// the current function); chosen by VerifyFuncRebinding, accepted only if every obligation then discharges.
+	LocalRen map[string]string
 	// Relies: two-state clauses over quantified objects only (no parameter, receiver or local) that this function
 	// ensures and that are reflexive and transitive (both are obligations): what survives any number of invocations
 	// of it as a callback. Callers of functions that may invoke the callback assume them for the keys it alone writes.
